@@ -6,8 +6,12 @@
    number (the harness maps value numbers injectively to Go values of the
    field's type and back).  Go panics are explicit ([Panic]).
 
-   Transcribed as the code is after the repairs delivered with C02/C04/C11
-   (patches/fix-C0x-*.diff); each repaired line is marked [fix]. *)
+   Transcribed as the code is after the repairs delivered with C02/C04
+   (patches/fix-C02-selector-update-all-matches.diff, fix-C04-merge-addressed-items-only.diff,
+   fix-C04-keep-writecheck-flag.diff, fix-C04-delete-addressed-items-only.diff); each repaired
+   line is marked [fix].  The in-place writes of copyToSelectedData / copyToAllData /
+   RemoveElementFromItem into the array of [existing] are not visible at this level: the store
+   hands the engine a copy (patches/fix-C11-functiondata-update-on-copy.diff, see FunctionStore.v). *)
 From Verif Require Import Base.Prelude Model.Schema.
 
 Definition item := list (option N).
@@ -208,10 +212,14 @@ Section Engine.
     | None => it
     end.
 
-  (* one element of copyToSelectedData / copyToAllData after the write check:
-     [fix C04 keep-writecheck-flag] the writecheck field is restored on remote writes *)
+  (* restoreWriteCheck(remoteWrite, previous, &item): [fix C04 keep-writecheck-flag] on remote
+     writes the fields tagged writecheck get back the value they had before *)
+  Definition restore_wc (remote : bool) (prev it : item) : item :=
+    if remote then fold_left (fun x w => set_fld x w (fld prev w)) (s_wc sch) it else it.
+
+  (* one element of copyToSelectedData / copyToAllData after the write check *)
   Definition apply_data (remote : bool) (new it : item) : item :=
-    update_fields remote it (copy_nonnil new it).
+    restore_wc remote it (copy_nonnil new it).
 
   (* copyToSelectedData; [fix C02 selector-all-matches] every matching item is updated (no break) *)
   Fixpoint copy_to_selected (remote : bool) (sel : list (option N)) (new : item) (l : list item) : res (list item * bool) :=
@@ -257,9 +265,9 @@ Section Engine.
                 if addressed && negb (write_allowed it) && remote then Ok (r', false)
                 else
                   match f_sel f, f_elems f with
-                  | Some _, Some el => Ok ((if addressed then remove_elems el it else it) :: r', ok)
+                  | Some _, Some el => Ok ((if addressed then restore_wc remote it (remove_elems el it) else it) :: r', ok)
                   | Some _, None => Ok ((if addressed then [] else [it]) ++ r', ok)
-                  | None, Some el => Ok (remove_elems el it :: r', ok)
+                  | None, Some el => Ok (restore_wc remote it (remove_elems el it) :: r', ok)
                   | None, None => Ok (it :: r', ok)
                   end
             end
